@@ -78,6 +78,7 @@ class RecordingSigner(Signer):
         return self.inner.write_signature_value(wire, contents)
 
 
+_HMAC_SEQ = [0]
 SIGNER_KINDS = ['none', 'digest', 'digest-int', 'hmac', 'rsa', 'ecdsa256', 'ecdsa384', 'ecdsa521', 'ed25519',
                 'null', 'var']
 SIG_TYPE = {'digest': 0, 'digest-int': 0, 'hmac': 4, 'rsa': 1, 'ecdsa256': 3, 'ecdsa384': 3, 'ecdsa521': 3,
@@ -98,7 +99,9 @@ def make_signer(rng, kind, key_name=None):
         info['key_name'] = None
         return DigestSha256Signer(for_interest=True), info
     if kind == 'hmac':
-        key = gen.rand_bytes(rng, rng.choice([1, 16, 32, 64, 100]))
+        # key lengths cycle deterministically through both sides of the hash block size (64): longer keys are hashed first (RFC 2104)
+        _HMAC_SEQ[0] += 1
+        key = gen.rand_bytes(rng, [32, 65, 1, 100, 64, 200, 16, 131][_HMAC_SEQ[0] % 8])
         info['key'] = key
         return HmacSha256Signer(key_name, key), info
     if kind == 'rsa':
